@@ -1145,11 +1145,11 @@ PROPS["C23"] = dict(
     harness_timeout=3000,
     rule="histories of 6-20 calls on a real memory, every timestamp explicit (some repeated, some decreasing): puts of binary / short text / chunked text (>= 2500 chars) payloads with and without a 4-dimensional embedding and with explicit, repeated or default uris, "
          "update_frame with and without payload, delete_frame (valid, missing and inactive targets), put_memory_card with explicit created_at, puts with default options (auto-tag, date and triplet extraction, instant index) incl. sentences that yield extracted memory cards, "
-         "commit, vacuum, close+reopen, exit-without-commit+reopen; four profiles: binary without deletes / binary with deletes / mixed text / mixed text with default options and cards. "
+         "commit, vacuum, close+reopen, exit-without-commit+reopen; five profiles: binary without deletes / binary with deletes / mixed text / mixed text with default options and cards / TIES: 6-13 puts of one fixed text without uri (identical index text, identical sketch, tied scores) next to other text puts, deletes, reopen. "
          "EVERY history is executed FOUR times on fresh paths: twice in this process and twice in separate child processes (mvharness C23-child). Compared with the first execution: "
          "(1) the logical digest: per-call results incl. log sequence numbers and automatic-checkpoint timing, every field of every frame (serde image, payload_offset apart), content hash of every active frame, timeline both directions with child frames and previews, "
          "~30 searches with no_sketch (16 vocabulary words, multi-word / OR / AND / NOT, uri: field query, words of extracted sentences, document tags; top_k 3 / 10 / 200; rank, frame, ranges, snippet text, total_hits, cursor), "
-         "4 vector searches with distance bit patterns, memory cards (created_at apart), stats counters: ANY difference is a violation (logical-differs); "
+         "4 vector searches with distance bit patterns, memory cards (created_at apart), stats counters, Memvid::find_sketch_candidates as ORDERED lists (8 queries incl. the tied texts x Hamming thresholds 10 / 32 / 64 x max_candidates 1, 2, 3, half of and all of the entries, 2000: frame, score bits, Hamming distance, matching terms) and 13 searches with the sketch pre-filter ON, both on the live handle and on a handle reopened from the final file (compared across the four executions), and two further opens of the same file compared with each other: ANY difference is a violation (logical-differs); "
          "(2) byte for byte each of 17 region classes of the files, delimited with HeaderCodec::decode, find_last_valid_footer and Toc::decode (header geometry / footer offset / log position / TOC checksum / padding, log region, frame payloads, time index, embedded Tantivy files, "
          "vector index, memories track, sketch track, logic mesh, bytes no manifest points to, TOC, footer length+hash, footer magic+generation): a difference in a class the model tags with no oracle source is a violation (deterministic-class-differs), "
          "differences in oracle-tagged classes are the known finding. Compared with the model (two concrete oracle streams differing everywhere): per-call results, final frame table, time-index ids, vector-index ids, card count, "
@@ -1158,7 +1158,7 @@ PROPS["C23"] = dict(
     level_text="Information-flow theorems over a machine in which every source of nondeterminism of the implementation is an explicit oracle stream (Tantivy segment file names, indexing-thread scheduling, SystemTime::now, hash-set order of the frame filter, temp names), built as the product of the logical machine of Model/Reads.v over Model/Store.v "
                "(frame table with content tags and timestamps, lex_docs, vec_docs, time index, plus memory-card lists) and a physical machine (log records, embedded segment files, stale index images, card stamps) from which a symbolic image of 17 region classes of the file is assembled: "
                "for ALL histories with explicit timestamps and ALL pairs of oracle streams the logical state and every call result are identical (noninterference); each region class is identical whenever the streams agree on the sources it is tagged with, hence payload / time-index / vector-index / sketch-track / header-geometry / footer-generation bytes are identical for all streams, "
-               "temp names and hash order flow nowhere; the segment files hold the engine's documents as a set; byte identity is refuted (two streams give different TOC images for every hash function) with the exact list of differing classes, a tombstone's timestamp carries now, extracted cards carry now; the explicit-timestamp hypothesis is shown necessary. "
+               "temp names and hash order flow nowhere; find_sketch_candidates (frame-order scan, stable sort by score, cut) is an observation of the logical state, identical as an ordered list for all streams, and a hash-map-order scan is shown to let HashOrd flow into it as soon as scores tie; the segment files hold the engine's documents as a set; byte identity is refuted (two streams give different TOC images for every hash function) with the exact list of differing classes, a tombstone's timestamp carries now, extracted cards carry now; the explicit-timestamp hypothesis is shown necessary. "
                "Tied to the code by executing every generated history four times (two processes apart) and comparing logical digests and region classes byte for byte, and by comparing table / time index / vector index / results with the model.",
     level_note="The property's FIRST sentence (byte-identical files) is REFUTED on the unchanged implementation and recorded as ONE known finding (class bytes-differ-in-oracle-tagged-classes: header footer-offset / log-position / TOC checksum, log, embedded Tantivy files, memories track, unreferenced bytes, TOC, footer length+hash); the SECOND sentence (identical logical state) is proved for the model and enforced on the implementation. "
                "Partial: the physical machine is symbolic (one word per value, lengths = word counts, BLAKE3 a parameter H), it does not model byte encodings; vacuum is treated as a commit; Tantivy's ranking is an oracle assumed to depend on documents and filter as sets (theorem C23_filtered_search_noninterference states it as hypothesis; the ~30 searches per history test it); "
